@@ -19,6 +19,8 @@ def main():
     prev = {}
     for d in sorted(glob.glob(os.path.join(VERIF, 'seeded', '*'))):
         m = json.load(open(d + '/meta.json'))
+        if 'breaks' not in m:
+            continue      # behaviour-preserving refactorings are not 'collected changes'
         prev.setdefault(m['property'], []).append(" ".join(m['breaks'].strip().splitlines())[:300])
     for n, pid in enumerate(IDS, 1):
         p = props[pid]
